@@ -50,6 +50,8 @@ def workloads():
     return {
         "Canonical": {"driver": "Canonical", "T": 600.0, "cycles": 2, "atoms": gas, "calc": {"kind": "soft"}, "table": [{"name": "d", "move": D}]},
         "GrandCanonical": {"driver": "GrandCanonical", "T": 3000.0, "mu": 0.0, "cycles": 3, "species": 2, "atoms": {"kind": "molecules", "nmol": 2, "molsize": 2, "framework": 1, "edge": 8.0, "seed": 4}, "calc": {"kind": "ideal"}, "table": [{"name": "x", "move": {"t": "E", "op": {"t": "TranslationRotation"}}, "criteria": "random:0.8"}, {"name": "d", "move": {"t": "D", "op": {"t": "Rotation"}}}]},
+        # a dilute box that runs empty and fills again: frames of zero atoms are frames too
+        "GrandCanonicalEmptying": {"driver": "GrandCanonical", "T": 3000.0, "mu": 0.0, "cycles": 4, "species": 1, "atoms": {"kind": "gas", "n": 1, "edge": 7.0, "seed": 8}, "calc": {"kind": "ideal"}, "table": [{"name": "x", "move": {"t": "E", "bias": 0.45}, "criteria": "accept"}, {"name": "d", "move": D}]},
         "ForceBias": {"driver": "ForceBias", "T": 300.0, "delta": 0.1, "atoms": {"kind": "mixed", "n": 4, "edge": 8.0, "pbc": False, "seed": 6}, "calc": {"kind": "harmonic", "k": 1.0}},
         "Isobaric": {"driver": "Isobaric", "T": 800.0, "P": 0.01, "cycles": 2, "atoms": gas, "calc": {"kind": "soft"}, "table": [{"name": "c", "move": {"t": "C", "op": {"t": "Iso", "mv": 0.05}}}, {"name": "d", "move": D}]},
     }
